@@ -254,51 +254,56 @@ def _chns_parts(du, node, at):
 
 
 def d3_columns(ctx):
-    ctx.rule("D3", "shank columns = r_[where(shank == sh)[0], sync indices]; _split2shanks writes chunk[:, chns] for every shank")
+    ctx.rule("D3", "shank columns = r_[where(shank == sh)[0], sync indices]; _split2shanks writes chunk[:, chns] of a shank into that shank's own file")
     repo = ctx.repo
     n = 0
-    for q in (CLS + "._prepare_files_NP24", CLS + "._prepare_files_NP21"):
+    for q in np2.PREPARE:
         fi = repo.fn(q)
         du = DefUse(fi.node)
-        for st in walk_function(fi.node):
-            if isinstance(st, ast.Assign) and isinstance(st.targets[0], ast.Subscript) and isinstance(st.targets[0].slice, ast.Constant) \
-                    and st.targets[0].slice.value == "chns":
-                parts = _chns_parts(du, st.value, st)
+        for value, st in np2.entry_defs(fi).get("chns", []):
+            alts = []
+            if isinstance(value, ast.Name):
+                ds = du.strong_reaching(value.id, st)
+                if ds and all(d.kind == "assign" and d.value is not None for d in ds):
+                    alts = [(d.value, d.stmt) for d in ds]
+            for v, at in (alts or [(value, st)]):
+                parts = _chns_parts(du, v, at)
                 if parts is None:
-                    if isinstance(st.value, ast.Call) and call_name(st.value) == "arange" and "self.sr.nc" in src(st.value):
-                        ctx.ok(fi, st, st, "all channels in on-disk order (single-shank, no map)", key="chns-arange")
+                    vv = expand_name(du, v, at)
+                    if isinstance(vv, ast.Call) and call_name(vv) == "arange" and "self.sr.nc" in src(vv):
+                        ctx.ok(fi, at, at, "all channels in on-disk order (single-shank, no map)", key="chns-arange")
                         n += 1
                         continue
-                    ctx.violation(fi, st, st, "shank channel list is not r_[where(shank == sh)[0], sync indices]", key="chns:" + q)
+                    ctx.violation(fi, at, at, "shank channel list is not r_[where(shank == sh)[0], sync indices]", key="chns:" + q)
                     continue
                 n += 1
                 ok = len(parts) == 2
                 if ok:
                     w, sy = parts
+                    w = expand_name(du, w, at)
                     okw = isinstance(w, ast.Subscript) and isinstance(w.slice, ast.Constant) and w.slice.value == 0 and isinstance(w.value, ast.Call) \
                         and call_name(w.value) in ("where", "nonzero", "flatnonzero") and "shank" in src(w.value) and "== sh" in src(w.value)
-                    oks = "_get_sync_trace_indices_from_meta" in src(sy)
+                    oks = "_get_sync_trace_indices_from_meta" in src(expand_name(du, sy, at))
                     ok = okw and oks
-                ctx.check(ok, fi, st, st, "shank columns in ascending original order, sync appended last",
-                          f"`{src(st.value)[:100]}`: columns are not (ascending shank sites, then sync)", key="chns:" + q)
+                ctx.check(ok, fi, at, at, "shank columns in ascending original order, sync appended last",
+                          f"`{src(v)[:100]}`: columns are not (ascending shank sites, then sync)", key="chns:" + q)
     if n < 2:
         raise AnchorMissing("chns definitions not found in _prepare_files_NP24/_NP21")
-    fi = repo.fn(CLS + "._split2shanks")
-    loops = [s for s in fi.node.body if isinstance(s, ast.For)]
+    fi, recs = np2.split_writer(repo)
     ok = False
-    detail = "no loop over shank_info"
-    if loops and "self.shank_info" in src(loops[0].iter):
-        key = loc_name(loops[0].target)
-        tof = [c for c in find(loops[0], ast.Call) if call_name(c) == "tofile"]
-        for c in tof:
-            r = c.func.value
-            if isinstance(r, ast.Subscript) and isinstance(r.slice, ast.Tuple) and len(r.slice.elts) == 2:
-                rows, cols = r.slice.elts
-                full_rows = isinstance(rows, ast.Slice) and rows.lower is None and rows.upper is None and rows.step is None
-                okc = norm(cols) == norm(ast.parse(f"self.shank_info[{key}]['chns']", mode="eval").body)
-                okf = c.args and norm(expand_name(DefUse(fi.node), c.args[0], c)) == norm(ast.parse(f"self.shank_info[{key}][f'{{etype}}_open_file']", mode="eval").body)
-                ok = full_rows and okc and okf and loc_name(r.value) == "chunk"
-                detail = f"writes {src(r)} to {src(c.args[0]) if c.args else '?'}"
+    detail = "no write of chunk columns to a shank file"
+    for rec in recs:
+        c, r = rec["call"], rec["data"]
+        if isinstance(r, ast.Subscript) and isinstance(r.slice, ast.Tuple) and len(r.slice.elts) == 2:
+            rows, cols = r.slice.elts
+            cols = expand_name(rec["du"], cols, c)
+            full_rows = isinstance(rows, ast.Slice) and rows.lower is None and rows.upper is None and rows.step is None
+            owner = rec["file_owner"]
+            okc = owner is not None and isinstance(cols, ast.Subscript) and isinstance(cols.slice, ast.Constant) and cols.slice.value == "chns" \
+                and norm(cols.value) == norm(owner) and "self.shank_info" in src(owner)
+            okf = rec["key"] in ("*_open_file", "*_file")
+            ok = full_rows and okc and okf and loc_name(r.value) == "chunk"
+            detail = f"writes {src(r)} to {src(c.args[0]) if c.args else '?'} ({src(owner) if owner is not None else '?'}[{rec['key']!r}])"
     if not ok:
         batched = _batched_split(fi)
         if batched is not None:
@@ -309,7 +314,7 @@ def d3_columns(ctx):
                       f"_split2shanks: {why}", key="split-write", name_free=True)
             return
     ctx.check(ok, fi, fi.node, detail, "every shank file receives all rows of exactly its own columns",
-              f"_split2shanks: {detail} - not chunk[:, shank_info[sh]['chns']] into that shank's open file", key="split-write")
+              f"_split2shanks: {detail} - not chunk[:, shank_info[sh]['chns']] into that shank's own file", key="split-write")
 
 
 def _batched_split(fi):
@@ -727,6 +732,11 @@ def dS_shared(ctx):
                             'a later window / shank is written from data an earlier one modified')
 
 
+def d8_fresh_start(ctx):
+    ctx.rule("D8", "a shank file starts empty: the handle is opened truncating, or the prepare step empties the file the writer appends to")
+    np2.fresh_start_rule(ctx, "D8")
+
+
 def run(ctx):
     ctx.run(dS_shared)
     ctx.run(d1_rounding)
@@ -737,3 +747,4 @@ def run(ctx):
     ctx.run(d5_meta_keys)
     ctx.run(d6_subset_string)
     ctx.run(np2.window_state_rule, "D7")
+    ctx.run(d8_fresh_start)
